@@ -62,7 +62,7 @@ def snapScale (s tol : Rat) : Rat :=
 
 /-- exact values of the Python doubles used as default tolerances -/
 def tol1em10 : Rat := mkRat 7737125245533627 77371252455336267181195264      -- 1e-10
-def tol1em8 : Rat := mkRat 6189700196426902 618970019642690137449562112       -- 1e-8
+def tol1em8 : Rat := mkRat 3022314549036573 302231454903657293676544          -- 1e-8
 def tol1em3 : Rat := mkRat 1152921504606847 1152921504606846976               -- 1e-3
 
 /-- `is_affine_st(A, tol=1e-10)` -/
@@ -177,6 +177,12 @@ def relativeRois (src dst : Shape) (back fwd : PtTr) (pps : Nat) (padding : Int)
 
 /-! ### `compute_reproject_roi` (overlap.py:419-555) -/
 
+/-- `align == 0` means "no alignment" (normalised at the top of `compute_reproject_roi`) -/
+def normAlign (align : Option Int) : Option Int := if align = some 0 then none else align
+
+/-- `padding = 1 if padding is None else padding` -/
+def padOr1 (padding : Option Int) : Int := match padding with | none => 1 | some p => p
+
 structure Plan where
   roiSrc : ROI
   roiDst : ROI
@@ -237,9 +243,7 @@ def reprojectGeoBoxes (src dst : Shape) (S D : Aff) (n : Rat) (ttol stol : Rat)
 `GbxPointTransform`, `scaleAt` for `get_scale_at_point(·, tr.back)`. -/
 def reprojectNonlinear (src dst : Shape) (back fwd : PtTr) (scaleAt : Rat × Rat → Rat × Rat)
     (padding align : Option Int) : Res Plan :=
-  let align := if align = some 0 then none else align
-  let padding := match padding with | none => 1 | some p => p
-  let r := relativeRois src dst back fwd 5 padding align
+  let r := relativeRois src dst back fwd 5 (padOr1 padding) (normAlign align)
   if ¬ ROI.isEmpty r.2 then
     let c : Rat × Rat := (((r.2.2.start + r.2.2.stop : Int) : Rat) / 2, ((r.2.1.start + r.2.1.stop : Int) : Rat) / 2)
     let sc := scaleAt c
